@@ -1,0 +1,144 @@
+//go:build verif
+
+package codegen
+
+import (
+	goast "go/ast"
+	goparser "go/parser"
+	gotypes "go/types"
+	"os"
+	"path/filepath"
+	"strings"
+
+	"github.com/dcaiafa/lox/internal/lexergen/mode"
+	"github.com/dcaiafa/lox/internal/parsergen/lr1"
+)
+
+// This file only exists in builds tagged "verif". It adds read-only taps and
+// entry points for the verification harness that lives outside this
+// repository. Nothing here is reachable from the regular lox binary.
+
+// VerifFrontEnd is what ParseLox leaves in the context.
+type VerifFrontEnd struct {
+	Grammar *lr1.Grammar
+	Table   *lr1.ParserTable
+	Modes   map[string]*mode.Mode
+}
+
+// VerifParseLox runs the ParseLox stage only (front end, analysis, LALR
+// construction, report, conflict verdict).
+func VerifParseLox(cfg *Config) (*VerifFrontEnd, bool) {
+	ctx := &context{
+		Fset:   cfg.Fset,
+		Errs:   cfg.Errs,
+		Dir:    cfg.Dir,
+		Report: cfg.Report,
+	}
+	ok := ctx.ParseLox()
+	return &VerifFrontEnd{
+		Grammar: ctx.ParserGrammar,
+		Table:   ctx.ParserTable,
+		Modes:   ctx.LexerModes,
+	}, ok
+}
+
+// VerifGenerateLexerOnly runs the stages that need no Go type information:
+// ParseLox, PreParseGo, EmitBase, EmitLexer.
+func VerifGenerateLexerOnly(cfg *Config) bool {
+	ctx := &context{
+		Fset:   cfg.Fset,
+		Errs:   cfg.Errs,
+		Dir:    cfg.Dir,
+		Report: cfg.Report,
+	}
+	return ctx.ParseLox() &&
+		ctx.PreParseGo() &&
+		ctx.EmitBase() &&
+		ctx.EmitLexer()
+}
+
+// VerifGenerateFast is Generate with the single stage ParseGo replaced by
+// verifParseGo, which type-checks the same files (and the same placeholder
+// for parser.gen.go) with go/types directly instead of going through
+// packages.Load. Every other stage is the regular one.
+func VerifGenerateFast(cfg *Config, imp gotypes.Importer, pkgPath string) bool {
+	ctx := &context{
+		Fset:   cfg.Fset,
+		Errs:   cfg.Errs,
+		Dir:    cfg.Dir,
+		Report: cfg.Report,
+	}
+	return ctx.ParseLox() &&
+		ctx.PreParseGo() &&
+		ctx.EmitBase() &&
+		ctx.EmitLexer() &&
+		ctx.verifParseGo(imp, pkgPath) &&
+		ctx.AssignActions() &&
+		ctx.EmitParser()
+}
+
+func (c *context) verifParseGo(imp gotypes.Importer, pkgPath string) bool {
+	placeholder := renderParserTemplate(&parserTemplateInputs{
+		Placeholder: true,
+		Package:     c.GoPackageName,
+	})
+	entries, err := os.ReadDir(c.Dir)
+	if err != nil {
+		c.Errs.GeneralError(err)
+		return false
+	}
+	var files []*goast.File
+	for _, e := range entries {
+		name := e.Name()
+		if e.IsDir() || filepath.Ext(name) != ".go" ||
+			strings.HasSuffix(name, "_test.go") || name == parserGenGo {
+			continue
+		}
+		f, err := goparser.ParseFile(
+			c.Fset, filepath.Join(c.Dir, name), nil,
+			goparser.SkipObjectResolution)
+		if err != nil {
+			c.Errs.GeneralError(err)
+			return false
+		}
+		files = append(files, f)
+	}
+	f, err := goparser.ParseFile(
+		c.Fset, filepath.Join(c.Dir, parserGenGo), placeholder,
+		goparser.SkipObjectResolution)
+	if err != nil {
+		c.Errs.GeneralError(err)
+		return false
+	}
+	files = append(files, f)
+
+	tc := &gotypes.Config{
+		Importer: imp,
+		Error:    func(err error) { c.Errs.GeneralError(err) },
+	}
+	pkg, _ := tc.Check(pkgPath, c.Fset, files, nil)
+	if c.Errs.HasError() {
+		return false
+	}
+	c.GoPackagePath = pkgPath
+	scope := pkg.Scope()
+	tokenObj := scope.Lookup("Token")
+	if tokenObj == nil {
+		c.Errs.GeneralErrorf("Token type is undefined")
+		return false
+	}
+	c.TokenType = tokenObj.Type()
+	c.ErrorType = scope.Lookup("Error").Type()
+	c.lookupParserType(scope)
+	return !c.Errs.HasError()
+}
+
+// VerifEncodeTable exposes the generic row-sharing table encoder. Rows must be
+// given in increasing index order (AddRow panics otherwise).
+func VerifEncodeTable(indices []int, rows [][]int32) []int32 {
+	t := newTable[int32]()
+	for i, idx := range indices {
+		t.AddRow(idx, rows[i])
+	}
+	return t.Array()
+}
